@@ -7,6 +7,9 @@ use crate::security::Uid;
 pub enum SyncLockMessage {
     RequestLock([u8; 32], VecDeque<Uid>, mpsc::UnboundedSender<Uid>),
     Unlock(Uid),
+    /// verification probe: (pending rooms per circuit in queue order, locked rooms, available)
+    #[cfg(feature = "verif")]
+    Probe(tokio::sync::oneshot::Sender<(Vec<([u8; 32], Vec<Uid>)>, Vec<Uid>, usize)>),
 }
 
 struct PeerLockRequest {
@@ -69,6 +72,20 @@ impl RoomLockService {
                             .await;
                         }
                     }
+                    #[cfg(feature = "verif")]
+                    SyncLockMessage::Probe(reply) => {
+                        let mut pending = Vec::new();
+                        for circuit in &peer_queue {
+                            let rooms: Vec<Uid> = match peer_lock_request.get(circuit) {
+                                Some(r) => r.rooms.iter().copied().collect(),
+                                None => Vec::new(),
+                            };
+                            pending.push((*circuit, rooms));
+                        }
+                        let mut l: Vec<Uid> = locked.iter().copied().collect();
+                        l.sort();
+                        let _ = reply.send((pending, l, avalaible));
+                    }
                 }
             }
         });
@@ -123,6 +140,14 @@ impl RoomLockService {
 
     pub async fn unlock(&self, room: Uid) {
         let _ = self.sender.send(SyncLockMessage::Unlock(room)).await;
+    }
+
+    /// verification probe of the scheduler state
+    #[cfg(feature = "verif")]
+    pub async fn verif_probe(&self) -> (Vec<([u8; 32], Vec<Uid>)>, Vec<Uid>, usize) {
+        let (reply, receive) = tokio::sync::oneshot::channel();
+        let _ = self.sender.send(SyncLockMessage::Probe(reply)).await;
+        receive.await.unwrap()
     }
 }
 #[cfg(test)]
